@@ -400,7 +400,8 @@ def finish(
         "violations": len(new),
     }
     os.makedirs(os.path.join(VERIF, "evidence"), exist_ok=True)
-    with open(os.path.join(VERIF, "evidence", f"{prop}.json"), "w") as fh:
+    ev_path = os.environ.get("VERIF_EVIDENCE_OUT") or os.path.join(VERIF, "evidence", f"{prop}.json")
+    with open(ev_path, "w") as fh:
         json.dump(ev, fh, indent=1, default=str)
     print(
         f"{prop} tier={tier} seed={seed} states={acc.states} transitions={acc.transitions} "
